@@ -170,7 +170,7 @@ class DecimalConverter(NullConverter):
 
     @classmethod
     def _decimal_to_xml(cls, py_value):
-        xml_value = str(py_value)
+        xml_value = format(py_value, 'f')  # str() switches to exponent notation for small values or positive exponents
         if 'E' in xml_value or 'e' in xml_value:
             # no exp form allowed in xml
             return cls._float_to_xml(float(py_value))
@@ -190,7 +190,7 @@ class DecimalConverter(NullConverter):
             # All ·minimally conforming· processors ·must· support decimal numbers with a minimum of
             # 18 decimal digits (i.e., with a ·totalDigits· of 18).
             head, tail = xml_value.split('.')
-            tail = tail[:18 - len(head)]
+            tail = tail[:18 - len(head.lstrip('+-0'))]  # sign and the zero of '0.xxx' are no digits
             if tail:
                 xml_value = f'{head}.{tail}'
             else:
